@@ -19,7 +19,7 @@ Proof. intros H. cbn [w_mod set_mod]. apply N.eqb_neq in H. rewrite H. reflexivi
 Definition item_mod (i : item) : option N :=
   match i with
   | ICall m _ _ _ | IReset m _ _ | ILog m _ _ | ISend m _ _ _ _ | ISched m _ _ _ | IShut m _ _
-  | IPanic m _ _ | IQuiet m | ICancel m _ | ISetCatch m _ _ | ITaskEnd m _ _ _ | ISpawn m _ _ _ => Some m
+  | IPanic m _ _ | IQuiet m | ICancel m _ | ISetCatch m _ _ | ITaskEnd m _ _ _ | ISpawn m _ _ _ | IResetPanic m => Some m
   | ISample _ _ => None
   end.
 
@@ -105,7 +105,7 @@ Qed.
 
 (* records written by the runtime rather than by user code *)
 Definition is_sys (i : item) : bool :=
-  match i with IReset _ _ _ | ICancel _ _ | ISample _ _ => true | ITaskEnd _ _ _ how => how =? 2 | _ => false end.
+  match i with IReset _ _ _ | ICancel _ _ | ISample _ _ | IResetPanic _ => true | ITaskEnd _ _ _ how => how =? 2 | _ => false end.
 Definition Usr (m : N) (i : item) : Prop := item_mod i = Some m /\ is_sys i = false.
 
 Lemma Usr_Own m l : Forall (Usr m) l -> Own m l.
